@@ -3,10 +3,23 @@ C14): folds `cycle` over a history of cycles sharing one datastore. -/
 import Tough.Driver.ClientJson
 open Lean Tough.Driver Tough.Driver.ClientJson Tough.Client Tough.Sig
 
+/-- the `read_target` calls after a successful load: gate, then lookup -/
+def runReads (c : CycleIn) (v : View) (st : St) : List Json × St :=
+  c.reads.foldl (fun (acc : List Json × St) rd =>
+    let cfg := { c.cfg with now := rd.1 }
+    match readGate cfg v acc.2 with
+    | (.error e, st') => (acc.1 ++ [Json.str (errTag e)], st')
+    | (.ok (), st') =>
+      (acc.1 ++ [Json.str (if (Tgt.find rd.2 v.tgt).isSome then "ok" else "notfound")], st')) ([], st)
+
 def runHistory (cs : List CycleIn) (ds0 : Datastore) : List Json × Datastore :=
   cs.foldl (fun (acc : List Json × Datastore) c =>
     let (r, st) := cycle c.cfg c.server c.shipped { ds := acc.2 }
-    (acc.1 ++ [cycleObs r st], st.ds)) ([], ds0)
+    match r with
+    | .ok v =>
+      let (rds, st2) := runReads c v st
+      (acc.1 ++ [(cycleObs r st).setObjVal! "reads" (Json.arr rds.toArray)], st2.ds)
+    | .error _ => (acc.1 ++ [cycleObs r st], st.ds)) ([], ds0)
 
 def strField (j : Json) (k : String) : String :=
   match optField j k with
@@ -41,13 +54,15 @@ def errClass (s : String) : String :=
 
 def agreeOne (i m : Json) : Bool :=
   isOk i == isOk m && optField i "versions" == optField m "versions" &&
-    optField i "roles" == optField m "roles" && optField i "reqs" == optField m "reqs"
+    optField i "roles" == optField m "roles" && optField i "reqs" == optField m "reqs" &&
+    optField i "reads" == optField m "reads"
 
 def specOne (prop : String) (i m : Json) : Bool :=
   match prop with
   | "C02" => isOk i == isOk m && (if isOk i then ((optField i "versions").bind fun v => (v.getArrVal? 0).toOption) ==
                ((optField m "versions").bind fun v => (v.getArrVal? 0).toOption) else true) && rootReqs i == rootReqs m
-  | "C04" => isOk i == isOk m && errClass (strField i "res") == errClass (strField m "res")
+  | "C04" => isOk i == isOk m && errClass (strField i "res") == errClass (strField m "res") &&
+             optField i "reads" == optField m "reads"
   | "C05" => isOk i == isOk m && optField i "reqs" == optField m "reqs"
   | "C09" => isOk i == isOk m && reqCount i == reqCount m && optField i "capped" != some (Json.bool true) &&
              pulledWithinBounds i m
